@@ -41,6 +41,8 @@ type Solver struct {
 	Time    time.Duration
 	log     io.Writer
 	depth   int
+	lost    bool // the process was killed by the query watchdog and replaced; state is gone until Reset
+	NKilled int
 }
 
 func solverArgs(kind string) []string {
@@ -76,7 +78,45 @@ func NewSolver(kind string) (*Solver, error) {
 		s.buf.WriteString("(set-logic QF_BV)\n")
 	}
 	s.buf.WriteString("(set-option :produce-models true)\n")
+	s.buf.WriteString(queryTimeoutOption(kind))
 	return s, nil
+}
+
+// QueryTimeoutMS bounds every check-sat; an expired query answers unknown, which
+// aborts the path as inconclusive (never as success).
+var QueryTimeoutMS = 120000
+
+func queryTimeoutOption(kind string) string {
+	if QueryTimeoutMS <= 0 {
+		return ""
+	}
+	if kind == "cvc5" {
+		return fmt.Sprintf("(set-option :tlimit-per %d)\n", QueryTimeoutMS)
+	}
+	return fmt.Sprintf("(set-option :timeout %d)\n", QueryTimeoutMS)
+}
+
+// restart replaces a killed solver process; all solver-side state is gone.
+func (s *Solver) restart() error {
+	s.cmd.Wait()
+	args := solverArgs(s.name)
+	cmd := exec.Command(args[0], args[1:]...)
+	in, err := cmd.StdinPipe()
+	if err != nil {
+		return err
+	}
+	out, err := cmd.StdoutPipe()
+	if err != nil {
+		return err
+	}
+	cmd.Stderr = cmd.Stdout
+	if err := cmd.Start(); err != nil {
+		return err
+	}
+	s.cmd, s.in, s.out = cmd, in, bufio.NewReaderSize(out, 1<<16)
+	s.buf.Reset()
+	s.lost = true
+	return nil
 }
 
 func (s *Solver) Close() {
@@ -87,11 +127,16 @@ func (s *Solver) Close() {
 
 // Reset drops all assertions, declarations and definitions.
 func (s *Solver) Reset() {
+	if s.lost {
+		s.buf.Reset()
+		s.lost = false
+	}
 	s.buf.WriteString("(reset)\n")
 	if s.name == "cvc5" {
 		s.buf.WriteString("(set-logic QF_BV)\n")
 	}
 	s.buf.WriteString("(set-option :produce-models true)\n")
+	s.buf.WriteString(queryTimeoutOption(s.name))
 	s.pr.defined = map[uint32]bool{}
 	s.pr.decls = map[string]bool{}
 	s.depth = 0
@@ -124,6 +169,9 @@ func (s *Solver) Push() scopeSave {
 }
 
 func (s *Solver) Pop(sv scopeSave) {
+	if s.lost {
+		return
+	}
 	s.buf.WriteString("(pop 1)\n")
 	s.pr.defined = sv.defined
 	s.pr.decls = sv.decls
@@ -140,13 +188,35 @@ func (s *Solver) flush() ([]string, error) {
 	if s.log != nil {
 		io.WriteString(s.log, txt)
 	}
+	if s.lost {
+		return nil, fmt.Errorf("solver state lost after a query timeout")
+	}
 	if _, err := io.WriteString(s.in, txt); err != nil {
 		return nil, err
+	}
+	// Watchdog: z3 does not honour its own timeout inside bit-blasting of
+	// multiplication-heavy queries; kill and replace the process instead.
+	var fired bool
+	var watchdog *time.Timer
+	if QueryTimeoutMS > 0 {
+		proc := s.cmd.Process
+		watchdog = time.AfterFunc(time.Duration(QueryTimeoutMS+5000)*time.Millisecond, func() {
+			fired = true
+			proc.Kill()
+		})
+		defer watchdog.Stop()
 	}
 	var lines []string
 	for {
 		line, err := s.out.ReadString('\n')
 		if err != nil {
+			if fired {
+				s.NKilled++
+				if rerr := s.restart(); rerr != nil {
+					return lines, fmt.Errorf("query timeout; solver restart failed: %v", rerr)
+				}
+				return lines, fmt.Errorf("query timeout after %d ms (solver process replaced)", QueryTimeoutMS+5000)
+			}
 			return lines, fmt.Errorf("solver died: %v (%v)", err, lines)
 		}
 		line = strings.TrimSpace(line)
